@@ -602,11 +602,127 @@ func grid(units, off int) time.Duration {
 }
 
 func body(s *simrt.Sim, tier string) {
-	if s.Tape.Draw(6) == 5 {
-		forced(s, tier)
-		return
+	mode := s.Tape.Draw(8)
+	if os.Getenv("KSIM_C10_MODE") == "burst" { // experiments only
+		mode = 4
 	}
-	periodic(s, tier)
+	switch mode {
+	case 7:
+		forced(s, tier)
+	case 4, 5, 6:
+		burst(s, tier)
+	default:
+		periodic(s, tier)
+	}
+}
+
+// burst: several tasks operate on the same one or two files at the same
+// instant while the file map is too small to hold every file, so entries are
+// evicted, reloaded from disk and published concurrently by different tasks.
+// No cleanup pass runs; the oracles are "a file whose persist flag is set is
+// never removed" (disk hook + check after every operation) and "a read returns
+// what was stored".
+func burst(s *simrt.Sim, tier string) {
+	tp := s.Tape
+	w := &world{s: s, byName: map[string]*fileRec{}, evict: true}
+	root := kit.TempDir(s)
+	w.cacheDir = filepath.Join(root, "store", "cache")
+	nFiles := 2 + tp.Draw(3)
+	capacity := 1 + tp.Draw(nFiles-1)
+	off := store.CleanupConfig{Disabled: true}
+	open := func(capacity int) {
+		st, err := store.NewCAStore(store.CAStoreConfig{UploadDir: filepath.Join(root, "store", "upload"), CacheDir: w.cacheDir, Capacity: capacity,
+			UploadCleanup: off, CacheCleanup: off}, tally.NoopScope)
+		if err != nil {
+			s.InfraError("NewCAStore: %v", err)
+		}
+		w.st = st
+	}
+	// Files are created through a roomy map (nothing is evicted, so nothing is
+	// deleted); most runs then restart the store, so that the files are on
+	// disk but not in the (now small) file map, which is the state a process
+	// finds after a restart.
+	open(64)
+	defer func() { w.st.Close() }()
+	s.Disk().FaultFn = w.hook
+	for i := 0; i < nFiles; i++ {
+		content := append([]byte{byte(i), 'c', '1', '0', 'b'}, kit.Bytes(s, 20+tp.Draw(200))...)
+		f := &fileRec{idx: i, content: content, name: kit.SHA(content)}
+		w.files = append(w.files, f)
+		w.byName[f.name] = f
+		if err := w.st.CreateCacheFile(f.name, bytes.NewReader(content)); err != nil {
+			s.InfraError("initial CreateCacheFile: %v", err)
+		}
+		filepath.WalkDir(w.cacheDir, func(p string, d os.DirEntry, err error) error {
+			if err == nil && d.IsDir() && d.Name() == f.name {
+				f.dir = p
+			}
+			return nil
+		})
+		if f.dir == "" {
+			s.InfraError("cannot locate directory of f%d", f.idx)
+		}
+		if tp.Chance(300) {
+			w.setPersist(f)
+		}
+	}
+	if tp.Chance(800) {
+		w.st.Close()
+		open(capacity)
+		s.Probe("burst_restart")
+	}
+	nTasks := 2 + tp.Draw(3)
+	nOps := 2 + tp.Draw(6)
+	if tier == "thorough" {
+		nOps += tp.Draw(8)
+	}
+	hot := tp.Draw(nFiles)
+	if tp.Chance(700) {
+		// a task is descheduled in the middle of an operation while the
+		// others run theirs to completion
+		s.InjectPauses(1+tp.Draw(3), 60*nTasks*nOps/4+50, 5*time.Millisecond)
+	}
+	var wg ssync.WaitGroup
+	for ti := 0; ti < nTasks; ti++ {
+		wg.Add(1)
+		simrt.Go(func() {
+			defer wg.Done()
+			for op := 0; op < nOps; op++ {
+				if tp.Chance(100) {
+					simrt.Sleep(time.Duration(1+tp.Draw(3)) * time.Millisecond)
+				}
+				f := w.files[hot]
+				if tp.Chance(400) {
+					f = w.files[tp.Draw(nFiles)]
+				}
+				switch tp.Draw(10) {
+				case 0, 1, 2:
+					w.stat(f)
+				case 3, 4:
+					w.read(f)
+				case 5, 6:
+					w.setPersist(f)
+					if tp.Chance(500) {
+						w.del(f) // a delete request that must be refused (it drops the map entry all the same)
+					}
+				case 7:
+					w.clearPersist(f, tp.Chance(500))
+				case 8:
+					w.del(f)
+				case 9:
+					w.create(f)
+				}
+			}
+		})
+	}
+	wg.Wait()
+	w.checkProtected("end of burst")
+	// a delete request for every file, as a cleanup pass or a client would issue
+	for _, f := range w.files {
+		w.del(f)
+	}
+	s.Probe("burst_run")
+	kit.SetSample(map[string]any{"mode": "burst", "capacity": capacity, "files": nFiles, "tasks": nTasks, "ops_per_task": nOps, "ops": len(w.ops)})
 }
 
 func periodic(s *simrt.Sim, tier string) {
